@@ -1066,6 +1066,11 @@ def search_stream(rng, n, pid, stats, seeds=()):
                             ['GET', 'post', 'Put', 'HEAD', 'delete']]))
     cases.append(('hooks', [[['add', BEFORE, 1], ['add', BEFORE, 2], ['add', AFTER, 1], ['on', AFTER, 2], ['deco', AFTER, 3],
                              ['remove', BEFORE, 1]], {'2': [['r', BEFORE, 2]], '3': [['a', AFTER, 4], ['r', AFTER, 1]]}]))
+    # a callback registered more than once (remove_hook takes the FIRST occurrence; the after list is built back to front)
+    cases.append(('hooks', [[['add', BEFORE, 1], ['add', BEFORE, 2], ['add', BEFORE, 1], ['add', BEFORE, 3], ['remove', BEFORE, 1]], {}]))
+    cases.append(('hooks', [[['add', AFTER, 1], ['on', AFTER, 2], ['add', AFTER, 1], ['deco', AFTER, 3], ['remove', AFTER, 1]], {}]))
+    cases.append(('hooks', [[['add', BEFORE, 4], ['add', BEFORE, 4], ['add', BEFORE, 5], ['remove', BEFORE, 4], ['add', AFTER, 5],
+                             ['add', AFTER, 4], ['add', AFTER, 5], ['remove', AFTER, 5]], {}]))
     cases.append(('errors', [[[404, 1], ['404', 2], [' 500 ', 3], ['+4_18', 4]], [404, 500, 418, 403]]))
     cases.append(('partial', [[['/api', 1], ['/api/v1', 2]], ['/api/v1/x'], '/api/v1/y/z']))
     for s in seeds:
